@@ -57,6 +57,7 @@ def family(rng, P):
         f0, b0 = v['levels'][0], base['levels'][0]
         for k in ('M', 'n', 'Q', 'w', 'A', 'B', 'c', 'dt', 'rightnode', 'collupdate', 'tn', 'g'):
             f0[k] = copy.deepcopy(b0[k])
+        f0['leftnode'] = bool(b0.get('leftnode', False))
         M = f0['M']
         f0['QI'] = [[0] * M for _ in range(M)] if base['kind'] == 'expl' else [[rng.randrange(P) if j <= i else 0 for j in range(M)] for i in range(M)]
         f0['QE'] = [[0] * M for _ in range(M)] if base['kind'] == 'impl' else [[rng.randrange(P) if j < i else 0 for j in range(M)] for i in range(M)]
